@@ -285,6 +285,21 @@ def is_parent_closed(S):
     return Generic in S and all(id_parent(t) in S for t in S if t is not Generic)
 
 
+import pandas as _pd  # noqa: E402
+ALGEBRA_PROBES = [
+    ("complex zero imag", _pd.Series([complex(1, 0), complex(2, 0)])),
+    ("float strings", _pd.Series(["1.5", "2.5"], dtype=object)),
+    ("int strings", _pd.Series(["10001", "20002"], dtype=object)),
+    ("bool strings", _pd.Series(["true", "false"], dtype=object)),
+    ("object bools", _pd.Series([True, False, None], dtype=object)),
+    ("midnight datetimes", _pd.Series(_pd.to_datetime(["2020-01-01", "2021-02-03"]))),
+    ("datetime strings", _pd.Series(["2020-01-01 10:00:00", "2021-02-03 11:30:00"], dtype=object)),
+    ("integral floats", _pd.Series([1.0, 2.0])),
+    ("url strings", _pd.Series(["http://a.b/c", "https://x.y/z"], dtype=object)),
+    ("uuid strings", _pd.Series(["0b8a22ca-80ad-4df5-85ac-fa49c44b7ede"], dtype=object)),
+]
+
+
 def run_algebra(tier, seed):
     rng = rng_for(seed, "algebra")
     fails, disagreements = [], []
@@ -367,6 +382,32 @@ def run_algebra(tier, seed):
             got = sum("was not included" in str(m.message) for m in w)
             if got != nmiss:
                 fails.append({"property": "C13", "signature": "dropped-relation-warning", "what": "%d warnings, %d dropped relations" % (got, nmiss), "op": label})
+            # the result is the typeset of its types: same relation graph as constructing it directly (C13), i.e. exactly
+            # the declared relations among its types (C14); where it is not, look for data the two type differently (C15)
+            with warnings.catch_warnings():
+                warnings.simplefilter("ignore")
+                direct = VisionsTypeset(set(want))
+            eg = sorted((str(a), str(b), bool(d["relationship"].inferential)) for a, b, d in res.relation_graph.edges(data=True))
+            ed = sorted((str(a), str(b), bool(d["relationship"].inferential)) for a, b, d in direct.relation_graph.edges(data=True))
+            if eg != ed:
+                missing = [e for e in ed if e not in eg]
+                extra = [e for e in eg if e not in ed]
+                for prop in ("C13", "C14"):
+                    fails.append({"property": prop, "signature": "algebra-graph-differs-from-direct-construction",
+                                  "what": "result of `%s` has a different relation graph than VisionsTypeset(<its types>): missing %s, extra %s"
+                                          % (label, missing[:4], extra[:4]), "op": label})
+                for nm_, probe in ALGEBRA_PROBES:
+                    try:
+                        with warnings.catch_warnings():
+                            warnings.simplefilter("ignore")
+                            ra, rb = str(direct.infer_type(probe)), str(res.infer_type(probe))
+                    except Exception as e:  # noqa
+                        continue
+                    if ra != rb:
+                        fails.append({"property": "C15", "signature": "algebra-built-typeset-infers-differently",
+                                      "what": "`%s` infers %s for %s, the directly constructed typeset of the same types infers %s"
+                                              % (label, rb, nm_, ra), "op": label, "probe": nm_})
+                        break
             nontriv.add(canon([label]))
         else:
             # outside the parent-closed quantifier: any outcome must still be "error or rooted at Generic"
@@ -399,6 +440,14 @@ def run_algebra(tier, seed):
             absent = [t for t in types_all if t not in ts0.types and t is not new]
             if absent:
                 one_step(mk(nm), "replace", (absent[0], new), "%s replace-absent %s->%s" % (nm, absent[0], new))
+    # remove a type, then add it back (the source of a relation arrives after its target)
+    for nm in base_ts:
+        for t in sorted(mk(nm).types, key=str):
+            if t is Generic or not is_parent_closed(set(mk(nm).types) - {t}):
+                continue
+            mid = one_step(mk(nm), "sub", t, "%s sub %s" % (nm, t))
+            if mid is not None:
+                one_step(mid, "add", t, "(%s sub %s) add %s" % (nm, t, t))
     # typeset (+|-) typeset
     for a in base_ts:
         for b in base_ts:
